@@ -179,6 +179,14 @@ type metricsReader struct {
 	hist [4]prometheus.Metric
 }
 
+// errDiscardCollectorMissing: the index registers its collectors with the
+// default registry, but not the named one through which it counts discards.
+type errDiscardCollectorMissing struct{ name string }
+
+func (e errDiscardCollectorMissing) Error() string {
+	return "the index counts discards in " + e.name + " but does not register that collector: the count is exported nowhere"
+}
+
 type metricsSnap struct {
 	iter int64
 	hist [4]int64
@@ -205,6 +213,16 @@ func newMetricsReader() (*metricsReader, error) {
 	if !ok {
 		if err == nil {
 			prometheus.Unregister(c)
+			// Is the sibling collector there? Then the index registers its
+			// collectors here but left this one out: the discards it counts
+			// are exported nowhere.
+			if err2 := prometheus.Register(h); err2 != nil {
+				if _, ok := err2.(prometheus.AlreadyRegisteredError); ok {
+					return nil, errDiscardCollectorMissing{"buildbarn_blobstore_hashing_key_location_map_put_too_many_iterations_total"}
+				}
+			} else {
+				prometheus.Unregister(h)
+			}
 		}
 		return nil, fmt.Errorf("collector buildbarn_blobstore_hashing_key_location_map_put_too_many_iterations_total is not registered by the index as described (%v)", err)
 	}
@@ -218,6 +236,8 @@ func newMetricsReader() (*metricsReader, error) {
 	if !ok {
 		if err == nil {
 			prometheus.Unregister(h)
+			// the counter above IS registered by the index, this one is not
+			return nil, errDiscardCollectorMissing{"buildbarn_blobstore_hashing_key_location_map_put_iterations"}
 		}
 		return nil, fmt.Errorf("collector buildbarn_blobstore_hashing_key_location_map_put_iterations is not registered by the index as described (%v)", err)
 	}
